@@ -1679,8 +1679,6 @@ fn unwrap_sum_ty(
     if !payload_ty.is_aggregate()
         && let Some(final_ty) = payload_ty.get_final_ty().into_real_type()
     {
-        assert!(!payload_ty.is_non_zero());
-
         Some(
             builder
                 .ins()
